@@ -44,10 +44,14 @@ var c07Shapes = []chainShape{
 	{"foreign-root-with-its-intermediate-from-caller", false},
 	{"issuer-without-CA-flag", false},
 	{"self-signed-leaf", false},
+	// X.509 constraints that an intermediate CA carries bind what it issues
+	{"intermediate-with-name-constraint-that-the-leaf-violates", false},
+	{"intermediate-with-name-constraint-that-the-leaf-respects", true},
+	{"intermediate-below-a-CA-whose-path-length-is-zero", false},
 }
 
 type c07PKI struct {
-	root, root2, inter, inter2, foreignRoot, foreignInter, expiredInter, notCA *gen.CA
+	root, root2, inter, inter2, foreignRoot, foreignInter, expiredInter, notCA, namedInter, pathZero, belowPathZero *gen.CA
 }
 
 func newC07PKI(rootSigner crypto.Signer) (*c07PKI, error) {
@@ -70,6 +74,9 @@ func newC07PKI(rootSigner crypto.Signer) (*c07PKI, error) {
 	mk(&p.foreignInter, gen.CertSpec{CN: "foreign-inter"}, p.foreignRoot)
 	mk(&p.expiredInter, gen.CertSpec{CN: "expired-inter", NotBefore: time.Now().Add(-72 * time.Hour), NotAfter: time.Now().Add(-24 * time.Hour)}, p.root)
 	mk(&p.notCA, gen.CertSpec{CN: "not-a-ca", NoCAFlag: true}, p.root)
+	mk(&p.namedInter, gen.CertSpec{CN: "inter-for-example.com-only", PermittedDNS: []string{"example.com"}}, p.root)
+	mk(&p.pathZero, gen.CertSpec{CN: "inter-that-may-only-issue-leaves", MaxPathLenZero: true}, p.root)
+	mk(&p.belowPathZero, gen.CertSpec{CN: "inter-below-path-length-zero"}, p.pathZero)
 	return p, err
 }
 
@@ -111,6 +118,14 @@ func (p *c07PKI) issue(shape string, spec gen.CertSpec, k gen.KeyPair) (string, 
 		issuer, caller = p.foreignInter, [][]byte{[]byte(p.foreignInter.PEM)}
 	case "issuer-without-CA-flag":
 		issuer, layoutInter = p.notCA, []*gen.CA{p.notCA}
+	case "intermediate-with-name-constraint-that-the-leaf-violates":
+		issuer, layoutInter = p.namedInter, []*gen.CA{p.namedInter}
+		spec.DNS = []string{"builder.evil.org"}
+	case "intermediate-with-name-constraint-that-the-leaf-respects":
+		issuer, layoutInter = p.namedInter, []*gen.CA{p.namedInter}
+		spec.DNS = []string{"ci.example.com"}
+	case "intermediate-below-a-CA-whose-path-length-is-zero":
+		issuer, layoutInter = p.belowPathZero, []*gen.CA{p.pathZero, p.belowPathZero}
 	case "self-signed-leaf":
 		ca, err := gen.NewCAWithSigner(spec, nil, k.Signer)
 		if err != nil {
@@ -783,7 +798,7 @@ func init() {
 	core.Register(&core.Property{
 		ID:    "C07",
 		Level: "exploration",
-		Rule: "14 chain shapes (leaf under root / intermediate in layout / intermediate from caller / two intermediates split between layout and caller / bundled in one PEM blob from the caller / bundled in one layout entry; intermediate missing; leaf expired / not yet valid; intermediate expired; foreign root without and with its intermediate passed by the caller; issuer without CA flag; self-signed leaf) x (wildcard constraint, no constraints); each of the 5 attributes varied alone over 22 (certificate values, constraint list) forms (wildcard, empty list / nil / [\"\"], exact, permuted, subset, superset, disjoint, listed-but-absent, case differs; duplicates and '*' among others: abstain) on valid and invalid chains; pairs of attributes (quick: a diagonal, thorough: all pairs x all judged forms); 1-3 constraints with the matching one at each position, none matching, and every attribute satisfied only by a different constraint; root constraints (one-directional facts only); a layout without root CAs while the verifying host's own trust store (simulated with SSL_CERT_FILE) trusts the certificate's CA; one certificate signing links for two steps of which it satisfies only one (both layout orders). A third of the end-to-end observations add a listed key whose link file is present but altered after signing. A certificate functionary inside a sublayout whose issuing intermediate comes from the caller only (with and without it, both entry points). Near misses of the validity period (not valid for two more minutes / expired two minutes ago: rejected). Clock histories per pair of entry points: certificate issued after an earlier verification in the process (accept) / expired since an earlier verification (reject), decided by the wall-clock bracket of the deciding call. Each case is observed through Step.CheckCertConstraints, CertificateConstraint.Check and InTotoVerify / InTotoVerifyWithDirectory (alternating, with and without a parameter dictionary) on a link signed by the certificate's key. " +
+		Rule: "17 chain shapes (leaf under root / intermediate in layout / intermediate from caller / two intermediates split between layout and caller / bundled in one PEM blob from the caller / bundled in one layout entry; intermediate missing; leaf expired / not yet valid; intermediate expired; foreign root without and with its intermediate passed by the caller; issuer without CA flag; self-signed leaf; intermediate with an X.509 name constraint that the leaf violates / respects; intermediate below a CA whose path length is zero) x (wildcard constraint, no constraints); each of the 5 attributes varied alone over 22 (certificate values, constraint list) forms (wildcard, empty list / nil / [\"\"], exact, permuted, subset, superset, disjoint, listed-but-absent, case differs; duplicates and '*' among others: abstain) on valid and invalid chains; pairs of attributes (quick: a diagonal, thorough: all pairs x all judged forms); 1-3 constraints with the matching one at each position, none matching, and every attribute satisfied only by a different constraint; root constraints (one-directional facts only); a layout without root CAs while the verifying host's own trust store (simulated with SSL_CERT_FILE) trusts the certificate's CA; one certificate signing links for two steps of which it satisfies only one (both layout orders). A third of the end-to-end observations add a listed key whose link file is present but altered after signing. A certificate functionary inside a sublayout whose issuing intermediate comes from the caller only (with and without it, both entry points). Near misses of the validity period (not valid for two more minutes / expired two minutes ago: rejected). Clock histories per pair of entry points: certificate issued after an earlier verification in the process (accept) / expired since an earlier verification (reject), decided by the wall-clock bracket of the deciding call. Each case is observed through Step.CheckCertConstraints, CertificateConstraint.Check and InTotoVerify / InTotoVerifyWithDirectory (alternating, with and without a parameter dictionary) on a link signed by the certificate's key. " +
 			"non-trivial = the certificate parses and the step has >=1 constraint, or the no-constraint class; distinct = (label, chain shape)",
 		Assumptions: []string{"duplicated values on either side, lists containing '*' among other entries and non-wildcard root lists that contain the chain's root are not judged", "validity windows are >= 1 day away from now, except 'valid' (+-1 h / +24 h)", "certificate-signed links use the legacy wrapper (DSSE cannot carry certificates: known finding F6)"},
 		Workers:     func(string) int { return 16 },
